@@ -34,31 +34,53 @@ Lemma invoke_spec s w :
   sites e = [s] /\ w_n w1 = S (w_n w) /\ w_nt w1 = w_nt w /\ w_ntmode w1 = w_ntmode w /\
   w_store w1 = apply_writes (writes (w_n w)) (w_store w) /\
   (raises (w_n w) = true -> w_exc w1 = Some s) /\
-  (raises (w_n w) = false -> w_exc w1 = w_exc w).
+  (raises (w_n w) = false -> w_exc w1 = w_exc w) /\ w_fms w1 = w_fms w.
 Proof.
   unfold Model.invoke. destruct (raises (w_n w)); cbn; destruct s; cbn; repeat split; auto; discriminate.
 Qed.
 
-Lemma handle_fms w : fms c = true -> in_flight (handle c w) = false.
+Lemma handle_fms w : w_fms w = true -> in_flight (handle w) = false.
 Proof. intros H. unfold handle. destruct (in_flight w) eqn:E; [rewrite H; reflexivity | exact E]. Qed.
-Lemma handle_nofms w : fms c = false -> handle c w = w.
+Lemma handle_nofms w : w_fms w = false -> handle w = w.
 Proof. intros H. unfold handle. rewrite H. destruct (in_flight w); reflexivity. Qed.
 Lemma handle_frame w :
-  w_n (handle c w) = w_n w /\ w_store (handle c w) = w_store w /\ w_nt (handle c w) = w_nt w
-  /\ w_ntmode (handle c w) = w_ntmode w.
-Proof. unfold handle. destruct (in_flight w); [destruct (fms c)|]; cbn; auto. Qed.
-Lemma handle_quiet w : in_flight w = false -> handle c w = w.
+  w_n (handle w) = w_n w /\ w_store (handle w) = w_store w /\ w_nt (handle w) = w_nt w
+  /\ w_ntmode (handle w) = w_ntmode w /\ w_fms (handle w) = w_fms w.
+Proof. unfold handle. destruct (in_flight w); [destruct (w_fms w) eqn:E|]; cbn; rewrite ?E; repeat split; auto. Qed.
+Lemma handle_quiet w : in_flight w = false -> handle w = w.
 Proof. intros H. unfold handle. rewrite H. reflexivity. Qed.
 
 (* ------------------------------------------------------------------ *)
 (* programs all of whose callbacks sit directly under a guard           *)
 Fixpoint safe (p : prog) : bool :=
   match p with
-  | PNop | PReset | PMode _ | PFeedback _ => true
+  | PNop | PReset | PMode _ | PFms _ | PFeedback _ => true
   | PInvoke _ => false
   | PGuard q => match q with PInvoke _ => true | _ => safe q end
   | PSeq a b => safe a && safe b
   end.
+
+(* the FMS is never detached / never attached by the program's environment steps *)
+Fixpoint fms_stays (v : bool) (p : prog) : bool :=
+  match p with
+  | PFms b => Bool.eqb b v
+  | PGuard q => fms_stays v q
+  | PSeq a b => fms_stays v a && fms_stays v b
+  | _ => true
+  end.
+(* framework code proper contains no environment step at all *)
+Fixpoint no_env (p : prog) : bool :=
+  match p with
+  | PFms _ => false
+  | PGuard q => no_env q
+  | PSeq a b => no_env a && no_env b
+  | _ => true
+  end.
+Lemma no_env_stays v p : no_env p = true -> fms_stays v p = true.
+Proof.
+  induction p; cbn; auto; try discriminate.
+  intros H. apply andb_true_iff in H. destruct H. rewrite IHp1, IHp2; auto.
+Qed.
 
 Lemma safe_pseq l : safe (pseq l) = forallb safe l.
 Proof. unfold pseq. induction l as [|p l IH]; cbn; [reflexivity | rewrite IH; reflexivity]. Qed.
@@ -69,44 +91,60 @@ Proof.
   intros H. unfold for_components. rewrite safe_pseq, forallb_forall.
   intros p Hin. apply in_map_iff in Hin. destruct Hin as (i & <- & _). apply H.
 Qed.
+Lemma no_env_pseq l : no_env (pseq l) = forallb no_env l.
+Proof. unfold pseq. induction l as [|p l IH]; cbn; [reflexivity | rewrite IH; reflexivity]. Qed.
+Lemma no_env_pwhen b p : no_env p = true -> no_env (pwhen b p) = true.
+Proof. destruct b; auto. Qed.
+Lemma no_env_for_components f : (forall i, no_env (f i) = true) -> no_env (for_components c f) = true.
+Proof.
+  intros H. unfold for_components. rewrite no_env_pseq, forallb_forall.
+  intros p Hin. apply in_map_iff in Hin. destruct Hin as (i & <- & _). apply H.
+Qed.
 
 Lemma psites_pseq l : psites (pseq l) = concat (map psites l).
 Proof. unfold pseq. induction l as [|p l IH]; cbn; [reflexivity | rewrite IH; reflexivity]. Qed.
 
-(* With the FMS attached, a safe program runs every callback of its static call
+(* While the FMS stays attached, a safe program runs every callback of its static call
    sequence, in order, whatever raises, and no exception escapes it. *)
-Theorem safe_total p : fms c = true -> safe p = true -> forall w, in_flight w = false ->
+Theorem safe_total p : safe p = true -> fms_stays true p = true ->
+  forall w, in_flight w = false -> w_fms w = true ->
   let '(w', e) := denote p w in
-  in_flight w' = false /\ sites e = psites p /\ w_n w' = (w_n w + length (psites p))%nat.
+  in_flight w' = false /\ sites e = psites p /\ w_n w' = (w_n w + length (psites p))%nat /\ w_fms w' = true.
 Proof.
-  intros Hf. induction p as [| s | j | | m | q IH | a IHa b IHb]; intros Hs w Hw; cbn [Model.denote]; rewrite Hw.
+  induction p as [| s | j | | m | b0 | q IH | a IHa b IHb]; intros Hs Hst w Hw Hf; cbn [Model.denote]; rewrite Hw.
   - cbn. repeat split; auto; lia.
   - discriminate.
   - pose proof (invoke_spec (SFeedback j) w) as Hi.
-    destruct (invoke (SFeedback j) w) as [w1 e]. destruct Hi as (H1 & H2 & _).
+    destruct (invoke (SFeedback j) w) as [w1 e]. destruct Hi as (H1 & H2 & _ & _ & _ & _ & _ & H8).
     destruct (in_flight w1) eqn:E1; cbn.
-    + destruct (handle_frame w1) as (Hn & _). rewrite handle_fms, Hn by exact Hf. repeat split; auto; lia.
-    + repeat split; auto. cbn. lia.
+    + destruct (handle_frame w1) as (Hn & _ & _ & _ & Hfm). rewrite handle_fms, Hn, Hfm by congruence.
+      repeat split; auto; try lia; congruence.
+    + repeat split; auto; try (cbn; lia); cbn; congruence.
   - cbn. repeat split; auto.
   - cbn. repeat split; auto.
-  - cbn [safe] in Hs. destruct q as [| s | j | | m | q' | a b].
+  - cbn in Hst. apply Bool.eqb_prop in Hst. subst b0. cbn. repeat split; auto.
+  - cbn [safe] in Hs. cbn [fms_stays] in Hst. destruct q as [| s | j | | m | b0 | q' | a b].
     + cbn [Model.denote]. rewrite Hw. cbn. rewrite handle_quiet by exact Hw. repeat split; auto; lia.
     + cbn [Model.denote]. rewrite Hw.
-      pose proof (invoke_spec s w) as Hi. destruct (invoke s w) as [w1 e]. destruct Hi as (H1 & H2 & _).
-      destruct (handle_frame w1) as (Hn & _). rewrite handle_fms, Hn by exact Hf. cbn. repeat split; auto; lia.
-    + specialize (IH Hs w Hw). destruct (denote (PFeedback j) w) as [w1 e]. destruct IH as (I1 & I2 & I3).
+      pose proof (invoke_spec s w) as Hi. destruct (invoke s w) as [w1 e]. destruct Hi as (H1 & H2 & _ & _ & _ & _ & _ & H8).
+      destruct (handle_frame w1) as (Hn & _ & _ & _ & Hfm). rewrite handle_fms, Hn, Hfm by congruence. cbn.
+      repeat split; auto; try lia; congruence.
+    + specialize (IH Hs Hst w Hw Hf). destruct (denote (PFeedback j) w) as [w1 e]. destruct IH as (I1 & I2 & I3 & I4).
       rewrite handle_quiet by exact I1. auto.
-    + specialize (IH Hs w Hw). destruct (denote PReset w) as [w1 e]. destruct IH as (I1 & I2 & I3).
+    + specialize (IH Hs Hst w Hw Hf). destruct (denote PReset w) as [w1 e]. destruct IH as (I1 & I2 & I3 & I4).
       rewrite handle_quiet by exact I1. auto.
-    + specialize (IH Hs w Hw). destruct (denote (PMode m) w) as [w1 e]. destruct IH as (I1 & I2 & I3).
+    + specialize (IH Hs Hst w Hw Hf). destruct (denote (PMode m) w) as [w1 e]. destruct IH as (I1 & I2 & I3 & I4).
       rewrite handle_quiet by exact I1. auto.
-    + specialize (IH Hs w Hw). destruct (denote (PGuard q') w) as [w1 e]. destruct IH as (I1 & I2 & I3).
+    + specialize (IH Hs Hst w Hw Hf). destruct (denote (PFms b0) w) as [w1 e]. destruct IH as (I1 & I2 & I3 & I4).
       rewrite handle_quiet by exact I1. auto.
-    + specialize (IH Hs w Hw). destruct (denote (PSeq a b) w) as [w1 e]. destruct IH as (I1 & I2 & I3).
+    + specialize (IH Hs Hst w Hw Hf). destruct (denote (PGuard q') w) as [w1 e]. destruct IH as (I1 & I2 & I3 & I4).
+      rewrite handle_quiet by exact I1. auto.
+    + specialize (IH Hs Hst w Hw Hf). destruct (denote (PSeq a b) w) as [w1 e]. destruct IH as (I1 & I2 & I3 & I4).
       rewrite handle_quiet by exact I1. auto.
   - cbn [safe] in Hs. apply andb_true_iff in Hs. destruct Hs as [Ha Hb].
-    specialize (IHa Ha w Hw). destruct (denote a w) as [w1 e1]. destruct IHa as (A1 & A2 & A3).
-    specialize (IHb Hb w1 A1). destruct (denote b w1) as [w2 e2]. destruct IHb as (B1 & B2 & B3).
+    cbn [fms_stays] in Hst. apply andb_true_iff in Hst. destruct Hst as [Hsa Hsb].
+    specialize (IHa Ha Hsa w Hw Hf). destruct (denote a w) as [w1 e1]. destruct IHa as (A1 & A2 & A3 & A4).
+    specialize (IHb Hb Hsb w1 A1 A4). destruct (denote b w1) as [w2 e2]. destruct IHb as (B1 & B2 & B3 & B4).
     cbn [psites]. rewrite sites_app, app_length, A2, B2. repeat split; auto. lia.
 Qed.
 
@@ -116,17 +154,18 @@ Theorem quiet_total p : forall w, in_flight w = false ->
   let '(w', e) := denote p w in
   in_flight w' = false /\ sites e = psites p /\ w_n w' = (w_n w + length (psites p))%nat.
 Proof.
-  induction p as [| s | j | | m | q IH | a IHa b IHb]; intros w Hw Hr; cbn [Model.denote]; rewrite Hw.
+  induction p as [| s | j | | m | b0 | q IH | a IHa b IHb]; intros w Hw Hr; cbn [Model.denote]; rewrite Hw.
   - cbn. repeat split; auto; lia.
   - pose proof (invoke_spec s w) as Hi. destruct (invoke s w) as [w1 e].
-    destruct Hi as (H1 & H2 & _ & _ & _ & _ & H7).
+    destruct Hi as (H1 & H2 & _ & _ & _ & _ & H7 & _).
     specialize (Hr 0%nat). cbn in Hr. rewrite Nat.add_0_r in Hr. specialize (Hr (Nat.lt_0_succ 0)).
     unfold in_flight in *. rewrite (H7 Hr). repeat split; auto. cbn. lia.
   - pose proof (invoke_spec (SFeedback j) w) as Hi. destruct (invoke (SFeedback j) w) as [w1 e].
-    destruct Hi as (H1 & H2 & _ & _ & _ & _ & H7).
+    destruct Hi as (H1 & H2 & _ & _ & _ & _ & H7 & _).
     specialize (Hr 0%nat). cbn in Hr. rewrite Nat.add_0_r in Hr. specialize (Hr (Nat.lt_0_succ 0)).
     assert (E1 : in_flight w1 = false) by (unfold in_flight in *; rewrite (H7 Hr); exact Hw).
     rewrite E1. cbn. repeat split; auto. lia.
+  - cbn. repeat split; auto.
   - cbn. repeat split; auto.
   - cbn. repeat split; auto.
   - specialize (IH w Hw Hr). destruct (denote q w) as [w1 e]. destruct IH as (I1 & I2 & I3).
@@ -191,39 +230,43 @@ Proof.
     destruct (first_raise (S (k0 + n1)) n2); reflexivity.
 Qed.
 
-Theorem nofms_cut p : fms c = false -> forall w, in_flight w = false ->
+Theorem nofms_cut p : fms_stays false p = true -> forall w, in_flight w = false -> w_fms w = false ->
   let '(w', e) := denote p w in
+  w_fms w' = false /\
   match first_raise (w_n w) (length (psites p)) with
   | Some i => sites e = firstn (S i) (psites p) /\ in_flight w' = true /\ w_n w' = (w_n w + S i)%nat
   | None => sites e = psites p /\ in_flight w' = false /\ w_n w' = (w_n w + length (psites p))%nat
   end.
 Proof.
-  intros Hf. induction p as [| s | j | | m | q IH | a IHa b IHb]; intros w Hw; cbn [Model.denote]; rewrite Hw.
+  induction p as [| s | j | | m | b0 | q IH | a IHa b IHb]; intros Hst w Hw Hf; cbn [Model.denote]; rewrite Hw.
   - cbn. repeat split; auto; lia.
   - pose proof (invoke_spec s w) as Hi. destruct (invoke s w) as [w1 e].
-    destruct Hi as (H1 & H2 & _ & _ & _ & H6 & H7). cbn.
+    destruct Hi as (H1 & H2 & _ & _ & _ & H6 & H7 & H8). cbn. split; [congruence|].
     destruct (raises (w_n w)) eqn:E.
     + unfold in_flight. rewrite (H6 eq_refl). repeat split; auto. lia.
     + unfold in_flight in *. rewrite (H7 eq_refl). repeat split; auto. lia.
   - pose proof (invoke_spec (SFeedback j) w) as Hi. destruct (invoke (SFeedback j) w) as [w1 e].
-    destruct Hi as (H1 & H2 & _ & _ & _ & H6 & H7). cbn.
+    destruct Hi as (H1 & H2 & _ & _ & _ & H6 & H7 & H8). cbn.
     destruct (raises (w_n w)) eqn:E.
     + assert (E1 : in_flight w1 = true) by (unfold in_flight; rewrite (H6 eq_refl); reflexivity).
-      rewrite E1, handle_nofms by exact Hf. repeat split; auto. lia.
+      rewrite E1, handle_nofms by congruence. split; [congruence|]. repeat split; auto. lia.
     + assert (E1 : in_flight w1 = false) by (unfold in_flight in *; rewrite (H7 eq_refl); exact Hw).
-      rewrite E1. cbn. repeat split; auto. lia.
+      rewrite E1. cbn. split; [congruence|]. repeat split; auto. lia.
   - cbn. repeat split; auto.
   - cbn. repeat split; auto.
-  - specialize (IH w Hw). destruct (denote q w) as [w1 e]. rewrite handle_nofms by exact Hf. exact IH.
-  - cbn [psites]. rewrite app_length, first_raise_app.
-    specialize (IHa w Hw). destruct (denote a w) as [w1 e1].
+  - cbn in Hst. apply Bool.eqb_prop in Hst. subst b0. cbn. repeat split; auto.
+  - cbn [fms_stays] in Hst. specialize (IH Hst w Hw Hf). destruct (denote q w) as [w1 e]. destruct IH as [IF IH].
+    rewrite handle_nofms by exact IF. split; [exact IF | exact IH].
+  - cbn [fms_stays] in Hst. apply andb_true_iff in Hst. destruct Hst as [Hsa Hsb].
+    cbn [psites]. rewrite app_length, first_raise_app.
+    specialize (IHa Hsa w Hw Hf). destruct (denote a w) as [w1 e1]. destruct IHa as [AF IHa].
     destruct (first_raise (w_n w) (length (psites a))) as [i|] eqn:Fa.
     + destruct IHa as (A1 & A2 & A3). rewrite (denote_inert b w1 A2). rewrite app_nil_r.
       destruct (first_raise_some _ _ _ Fa) as (Hi & _).
       rewrite firstn_app. replace (S i - length (psites a))%nat with 0%nat by lia. cbn. rewrite app_nil_r.
       repeat split; auto.
-    + destruct IHa as (A1 & A2 & A3). specialize (IHb w1 A2). destruct (denote b w1) as [w2 e2].
-      rewrite A3 in IHb.
+    + destruct IHa as (A1 & A2 & A3). specialize (IHb Hsb w1 A2 AF). destruct (denote b w1) as [w2 e2].
+      destruct IHb as [BF IHb]. rewrite A3 in IHb. split; [exact BF|].
       destruct (first_raise (w_n w + length (psites a)) (length (psites b))) as [i|] eqn:Fb; cbn [option_map].
       * destruct IHb as (B1 & B2 & B3). rewrite sites_app, A1, B1.
         rewrite firstn_app. replace (S (length (psites a) + i) - length (psites a))%nat with (S i) by lia.
